@@ -465,8 +465,9 @@ pub fn err_str(e: &jsonrpsee_core::client::Error) -> String {
 
 /// Drawn client ping configuration: `None` most of the time; otherwise short periods on the virtual clock with a
 /// failure budget that is never used up, so that the ticks only perturb the background tasks' select loops.
-/// Returns the request timeout to use with it (short, so that a stalled call costs few ticks).
-pub fn draw_ping() -> (Option<jsonrpsee_core::client::async_client::PingConfig>, std::time::Duration) {
+/// Returns the request timeout to use with it (the caller's choice: shorter than the usual 60 s so that a stalled
+/// call costs few ticks, longer than anything the scenario's peer may legitimately take).
+pub fn draw_ping(timeout_with_pings_s: u64) -> (Option<jsonrpsee_core::client::async_client::PingConfig>, std::time::Duration) {
 	use std::time::Duration;
 	if !rt::chance("client_pings", 1, 5) {
 		return (None, Duration::from_secs(60));
@@ -478,7 +479,7 @@ pub fn draw_ping() -> (Option<jsonrpsee_core::client::async_client::PingConfig>,
 		.ping_interval(Duration::from_millis(ping))
 		.inactive_limit(Duration::from_millis(inactive))
 		.max_failures(usize::MAX);
-	(Some(cfg), Duration::from_secs(3))
+	(Some(cfg), Duration::from_secs(timeout_with_pings_s))
 }
 
 pub const PLACEHOLDER: &str = "Error reason could not be found";
